@@ -721,6 +721,94 @@ def r12(cx):
     cx.need(n == 12, "R12: kinds x sites")
 
 
+# ------------------------------------------------------------------------------------------ R15 partial struct update
+@rule("R15", ["C10", "C06"], "Struct._update with a dictionary assigns exactly the named fields, each at its own slot, and nothing else")
+def r15(cx):
+    """evaluated: a struct of three leaf fields is updated with a dict naming one field (each in turn) and with a dict
+    naming two: the only effects are one write of the given value per named field, at that field's position."""
+    m = cx.m
+    lab = Lab(m)
+    I, W = lab.I, lab.W
+    names = ["a", "p", "z"]
+    n = 0
+    for subset in (["a"], ["p"], ["z"], ["a", "z"], []):
+        n += 1
+        out = {}
+
+        def thunk():
+            cls = lab.struct("S", [(nm, W.desc(nm, 8)) for nm in names])
+            arg = {nm: Opaque("v" + nm) for nm in names}
+            I.call(I.getattr(cls, "_to_buffer"), [W.buffer, Sym(OFF), arg, I.call(I.getattr(cls, "_inspect_args"), [arg], {})], {})
+            h = I.call(I.getattr(cls, "_from_buffer"), [W.buffer, Sym(OFF)], {})
+            out["slots"] = {I.getattr(f, "name"): I.call(I.getattr(f, "get_offset"), [h], {})[1] for f in cls.attrs["_fields"]}
+            n0 = len(I.effects)
+            I.call(I.getattr(h, "_update"), [{nm: Opaque("new" + nm) for nm in subset}], {})
+            out["eff"] = list(I.effects[n0:])
+            return None
+
+        res = I.explore(thunk, max_paths=8)
+        label = f"Struct._update({{{', '.join(subset)}}})"
+        if len(res) != 1 or res[0]["exc"] is not None:
+            e = res[0]["exc"]
+            cx.bad(None, construct=label, detail=f"evaluation raises {e.etype if e else 'fork'}: {e.msg if e else res[0]['conds']}", anchor="struct::Struct._update", sub="eval")
+            continue
+        wrs = [e for e in out["eff"] if e.kind in ("child_write", "write", "write_array", "view_update", "update_from_xbuffer")]
+        got = sorted((e.name, repr(pol(e.pos))) for e in wrs if e.kind == "child_write" and isinstance(e.value, Opaque) and e.value.tag == "new" + e.name)
+        want = sorted((nm, repr(pol(out["slots"][nm]))) for nm in subset)
+        other = [e for e in wrs if not (e.kind == "child_write" and isinstance(e.value, Opaque) and e.value.tag == "new" + getattr(e, "name", "?"))]
+        cx.check(got == want and not other, None, construct=f"{label}: writes {got}", detail="exactly the named fields are written, each with its value at its own slot",
+                 bad_detail=f"expected writes {want} and nothing else; got {got}" + (f" plus {len(other)} other effect(s)" if other else ""), anchor="struct::Struct._update")
+    cx.need(n == 5, "R15 cases")
+
+
+# ------------------------------------------------------------------------------------------ G1b propagation of _has_refs
+@rule("G1b", ["C09", "C10", "C03", "C08"], "_has_refs is True for both reference kinds and propagates through struct fields and array items (evaluated on the metaclasses)")
+def g1b(cx):
+    """G1 lets a whole-object byte copy through only under `not _has_refs`; that is sound only if the flag is right.
+    The metaclasses of the current source are evaluated: Ref instances and UnionRef classes carry True; a struct carries
+    True iff some field type does (in ANY position), an array iff its item type does; nesting propagates."""
+    m = cx.m
+    lab = Lab(m)
+    I, W = lab.I, lab.W
+    out = {}
+
+    def thunk():
+        sc = I.global_lookup("scalar", "Float64")
+        T = lab.struct("T", [("v", sc)])
+        R = I.call(I.global_lookup("ref", "Ref"), [T], {})
+        MU = I.global_lookup("ref", "MetaUnionRef")
+        U = I.call(I.class_attrs(MU)["__new__"], [MU, "U", (I.global_lookup("ref", "UnionRef"),), {"_reftypes": (T,)}], {})
+        out["Ref"] = I.getattr(R, "_has_refs")
+        out["UnionRef"] = I.getattr(U, "_has_refs")
+        out["plain struct"] = I.getattr(T, "_has_refs")
+        for pos in range(3):
+            fields = [(f"f{k}", R if k == pos else sc) for k in range(3)]
+            out[f"struct with a Ref in field {pos} of 3"] = I.getattr(lab.struct(f"S{pos}", fields), "_has_refs")
+        SU = lab.struct("SU", [("a", sc), ("u", U)])
+        out["struct with a UnionRef field"] = I.getattr(SU, "_has_refs")
+        S0 = lab.struct("S0", [("a", sc), ("r", R)])
+        out["struct nesting a struct with a Ref"] = I.getattr(lab.struct("SN", [("x", sc), ("n", S0)]), "_has_refs")
+        out["array of scalars"] = I.getattr(lab.array("A0", (None,), (0,), sc), "_has_refs")
+        out["array of plain structs"] = I.getattr(lab.array("A1", (None,), (0,), T), "_has_refs")
+        out["array of Ref"] = I.getattr(lab.array("A2", (None,), (0,), R), "_has_refs")
+        out["array of structs with a Ref"] = I.getattr(lab.array("A3", (3,), (0,), S0), "_has_refs")
+        A3 = lab.array("A4", (None,), (0,), S0)
+        out["struct with an array of structs with a Ref"] = I.getattr(lab.struct("SA", [("k", sc), ("arr", A3)]), "_has_refs")
+        return None
+
+    res = I.explore(thunk, max_paths=8)
+    if len(res) != 1 or res[0]["exc"] is not None:
+        e = res[0]["exc"]
+        raise AnalysisError(f"[G1b] the metaclasses cannot be evaluated: {e.etype if e else 'fork'}: {e.msg if e else res[0]['conds']}")
+    want_false = {"plain struct", "array of scalars", "array of plain structs"}
+    for k, v in out.items():
+        want = k not in want_false
+        cx.check(v is want, None, construct=f"{k}: _has_refs = {v!r}", detail="flag follows the presence of references inside the type",
+                 bad_detail=(f"_has_refs is {v!r} for a type that contains references: its instances would be byte-copied, duplicating relative reference words verbatim" if want else f"_has_refs is {v!r} for a reference-free type"),
+                 anchor="struct::MetaStruct.__new__" if k.startswith("struct") or k == "plain struct" else ("array::MetaArray.__new__" if k.startswith("array") else "ref::Ref"))
+    cx.need(len(out) >= 13, "G1b cases")
+
+
 # ------------------------------------------------------------------------------------------ R13 shape refusal
 @rule("R13", ["C11", "C03"], "construction / whole-array update from an array-like value of another shape is refused before anything is allocated or written")
 def r13(cx):
@@ -1001,7 +1089,7 @@ def l1b(cx):
 STRINGS = ["", "a", "abcdefg", "abcdefgh", "abcdefghijklmno", "héllo wörld", "日本語", "x" * 23, "x" * 24]
 
 
-@rule("L6", ["C01", "C03", "C05", "C11"], "string: planned size, written extent, NUL termination and padding agree with the documented layout")
+@rule("L6", ["C01", "C03", "C05", "C11", "C10"], "string: planned size, written extent, NUL termination and padding agree with the documented layout")
 def l6(cx):
     m = cx.m
     lab = Lab(m)
